@@ -388,3 +388,41 @@ func constInt64(c *types.Const) (int64, bool) {
 	}
 	return constant.Int64Val(c.Val())
 }
+
+// backSlice visits the intraprocedural backward data slice of v: operands of value-producing
+// instructions, loads followed to their address chains (not to stores into them). visit returns
+// false to stop descending below a value.
+func backSlice(v ssa.Value, visit func(ssa.Value) bool) {
+	seen := map[ssa.Value]bool{}
+	var walk func(v ssa.Value, depth int)
+	walk = func(v ssa.Value, depth int) {
+		if v == nil || seen[v] || depth > 40 {
+			return
+		}
+		seen[v] = true
+		if !visit(v) {
+			return
+		}
+		in, ok := v.(ssa.Instruction)
+		if !ok {
+			return
+		}
+		var ops []*ssa.Value
+		for _, op := range in.Operands(ops) {
+			if op != nil && *op != nil {
+				walk(*op, depth+1)
+			}
+		}
+	}
+	walk(v, 0)
+}
+
+func unstableIndexField(owner, name string) bool {
+	if ln := strings.ToLower(name); ln == "sourceindex" || ln == "copysourceindex" || ln == "othersourceindex" {
+		return true
+	}
+	if owner == "logger.Source" && name == "Index" {
+		return true
+	}
+	return false
+}
